@@ -233,6 +233,14 @@ func runProp(id, tier string, def *propDef) (code int) {
 	if err != nil {
 		return fail(err.Error())
 	}
+	rep.rule("engine-selftest", "every analysis engine fires on the broken canary example and is silent on the correct one (stdlib-only package loaded on every run)", 1)
+	if failed, n := selfTest(); len(failed) > 0 {
+		for _, f := range failed {
+			rep.bad("engine-selftest", f, "vcheck/canary/canary.go", "engine behaves as specified on the canary", f)
+		}
+	} else {
+		rep.ok("engine-selftest", fmt.Sprintf("%d expectations", n), "vcheck/canary/canary.go", "guard dominance, path obligations, locksets, length/nil facts, bounds, origins and error discipline all fire on the broken miniature and not on the correct one")
+	}
 	def.run(w, rep)
 	if tier == "thorough" {
 		if t, ok := thorough[id]; ok {
